@@ -772,6 +772,13 @@ inclGetLine(FILE *file)
 
 	bufStart(inclBuffer);
 	while ((c = osGetc(file)) != EOF) {
+		/*
+		 * Lines are C strings: a NUL byte would silently cut the
+		 * line (and a NUL at the start of a line would end the
+		 * whole source).  Keep it visible as a non-printable
+		 * character, which the scanner rejects.
+		 */
+		if (c == 0) c = 0x7F;
 		bufAdd1(inclBuffer, c);
 		if (c == '\n') break;
 	}
